@@ -201,9 +201,7 @@ class Scenario:
         if phase.get("second_shutdown") == "concurrent":
             env.spawn(second_caller, "second%d" % index)
 
-        other = ServiceRunner(accept_delay=ACCEPT_DELAY)
-
-        def rescue():
+        def rescue(other):
             # only reached if the concurrent accept was admitted (legitimately so when the
             # first runner had already ended): stop that runtime again
             other.running.wait()
@@ -213,16 +211,21 @@ class Scenario:
         def concurrent():
             runtime.running.wait()
             env.sleep(phase.get("concurrent_at", 0.2))
-            env.spawn(rescue, "rescue%d" % index)
-            env.log("concurrent-accept-call", phase=index)
-            try:
-                other.accept()
-            except Abort:
-                raise
-            except BaseException as err:  # noqa: B036
-                env.log("concurrent-accept-raised", phase=index, exc=err)
-            else:
-                env.log("concurrent-accept-returned", phase=index)
+            # a refused accept must leave everything as it was: the next one is refused too
+            for attempt in range(phase.get("concurrent_count", 1)):
+                other = ServiceRunner(accept_delay=ACCEPT_DELAY)
+                env.spawn(rescue, "rescue%d-%d" % (index, attempt), other)
+                env.log("concurrent-accept-call", phase=index)
+                try:
+                    other.accept()
+                except Abort:
+                    raise
+                except BaseException as err:  # noqa: B036
+                    env.log("concurrent-accept-raised", phase=index, exc=err)
+                else:
+                    env.log("concurrent-accept-returned", phase=index)
+                    break
+                env.sleep(0.1)
 
         concurrent_thread = None
         if phase.get("concurrent"):
@@ -351,15 +354,25 @@ class Scenario:
                                        "still accepting" % index))
                 seen = [s for s, n, w, e, d in mine if e == "running-seen"]
                 called = [s for s, n, w, e, d in mine if e == "concurrent-accept-call"]
-                if called and seen and seen[0] < called[0] < ended_seq and (
-                        admitted or not raised):
+                results = [(s, e) for s, n, w, e, d in mine
+                           if e in ("concurrent-accept-raised", "concurrent-accept-returned")]
+                for number, call in enumerate(called):
                     # called while the first runner was certainly accepting: it has to be
-                    # refused, not made to wait for its turn
-                    violations.append(("%s:concurrent-accept-not-refused" % label,
-                                       "accept() of a second runner, called while runner %d was "
-                                       "accepting, %s instead of raising RuntimeError"
-                                       % (index, "was admitted later" if admitted
-                                          else "did not return")))
+                    # refused, not admitted and not made to wait for its turn
+                    if not (seen and seen[0] < call < ended_seq):
+                        continue
+                    until = called[number + 1] if number + 1 < len(called) else 1 << 60
+                    result = [e for s, e in results if call < s < until]
+                    let_in = [s for s in admitted if call < s < until]
+                    if let_in or result != ["concurrent-accept-raised"]:
+                        violations.append((
+                            "%s:concurrent-accept-not-refused" % label
+                            + ("" if number == 0 else ":after-a-refused-one"),
+                            "accept() of another runner (attempt %d), called while runner %d "
+                            "was accepting, %s instead of raising RuntimeError" % (
+                                number + 1, index,
+                                "was admitted" if let_in else "did not return")))
+                        break
                 for seq, exc in raised:
                     if seq < ended_seq and not admitted and not isinstance(exc, RuntimeError):
                         violations.append(("%s:concurrent-accept-wrong-error" % label,
@@ -404,6 +417,8 @@ def scenario_params(tier):
             continue
         phase = {"end": end, "thread": thread, "population": population, "stop_at": stop_at,
                  "concurrent": concurrent, "sigint_cost": 1 if tier == "quick" else 0}
+        if concurrent and stop_at >= 0.5:
+            phase["concurrent_count"] = 2
         out.append({"phases": [phase]})
         if population == "submitter" and tier == "thorough":
             for flavour in ("asyncio", "threading"):
